@@ -533,6 +533,7 @@ impl Check for C03 {
             "probe:family_fall_off_end",
             "probe:family_jump_ffff",
             "probe:load_refused_too_long",
+            "probe:family_string_across_top_of_memory",
         ]
     }
 }
